@@ -216,7 +216,25 @@ class C05(F.PropCheck):
             if aged: return [('WIFI', [5], b''), ('ADV', [200000], b''), ('CONNCB', [], b''), ('RECV', [], reg_result(3, T, 1))] + \
                             ([('ADV', [150000], b''), ('RECV', [], sat_result(T if grant is None else grant, 2))] if T != 10 else [])
             return self.up_and_register(rng, T, grant)
-        if k < 0.22 and not aged:
+        if k < 0.10 and not aged:
+            # registration REFUSED (or version error): the firmware stops (stop_with_delay, started = 0); with a server that stays silent
+            # afterwards the watchdog restart 61 s later is the only way out: the 62 s clause is judged in the stopped state as well
+            tags.add('refused-silent')
+            code = rng.choice([4, 8, 13, 5, 6, 7, 10, 14, 15, 17, 19, 20, 37, 0, 2, 99, 259, -1, 'verr'])
+            refusal = c04.version_error(1) if code == 'verr' else reg_result(code, rng.choice([0, 10]), 1)
+            evs.append(('SERVER', [rng.choice([-1, 100000])], b''))
+            if rng.random() < 0.4:                                   # an accepted session first, the server closes, the next registration is refused
+                tags.add('refused-after-accepted'); T = rng.choice([10, 20, 30])
+                evs += self.up_and_register(rng, T); evs += self.local_traffic(rng, rng.choice([3, 8, 15]) * S, rng.choice(['none', 'periodic']))
+                evs += [('DISCCB', [], b''), ('ADV', [2300000], b''), ('WIFI', [5], b''), ('ADV', [400000], b''), ('CONNCB', [], b''), ('ADV', [300000], b'')]
+            else:
+                evs += [('ADV', [300000], b''), ('WIFI', [5], b''), ('ADV', [250000], b''), ('CONNCB', [], b''), ('ADV', [rng.choice([100000, 400000])], b'')]
+            evs.append(('RECV', [], refusal)); evs.append(('SERVER', [-1], b''))
+            k2 = rng.random()
+            if k2 < 0.3: evs += [('ADV', [rng.choice([1000, 6000, 500000])], b''), ('DISCCB', [], b'')]   # the server closes the socket after refusing
+            evs += self.local_traffic(rng, rng.choice([70, 90, 130]) * S, rng.choice(['none', 'none', 'random']))
+            if rng.random() < 0.3: evs += [('WIFI', [rng.choice([5, 1, 0])], b''), ('ADV', [5 * S], b'')]
+        elif k < 0.22 and not aged:
             # two interruptions in sequence: silence (or the server closes the socket), recovery and re-registration, second silence 5..70 s later:
             # the T+11 s bound must hold after EACH silence (next_wd_soft_timeout_challenge must not rate-limit the activity-timeout reconnect)
             T = rng.choice([10, 10, 15, 20, 30, 40, 50, rng.randrange(10, 51)]); tags.add('multi-outage'); tags.add('T<=50')
